@@ -79,19 +79,49 @@ Print Assumptions C13_coordinates_single_fault_example.
 
 (* Single-fault tolerance, bounds / climatology attribute: the coordinate (or domain
    ancillary) is created all the same, without bounds, and the report names the variable *)
-Theorem C13_bounds_missing : forall ds t n o v b,
-  get_var ds n = ROk v -> bounds_name v o = Some b -> str_empty b = false -> internal ds b = false ->
-  create_bounded ds t n o = ROk (mkCons t n None, [(b, WBounds, RMissing)]).
+Theorem C13_bounds_missing : forall ds t n o v b pre,
+  get_var ds n = ROk v -> own_bounds_msgs ds n v o = ROk pre ->
+  bounds_name v o = Some b -> str_empty b = false -> internal ds b = false ->
+  create_bounded ds t n o = ROk (mkCons t n None, pre ++ [(b, WBounds, RMissing)]).
 Proof. exact bounds_missing. Qed.
 Print Assumptions C13_bounds_missing.
 
-Theorem C13_bounds_foreign_dimensions : forall ds t n o v b dc db,
-  get_var ds n = ROk v -> bounds_name v o = Some b -> str_empty b = false -> internal ds b = true ->
+Theorem C13_bounds_foreign_dimensions : forall ds t n o v b dc db pre,
+  get_var ds n = ROk v -> own_bounds_msgs ds n v o = ROk pre ->
+  bounds_name v o = Some b -> str_empty b = false -> internal ds b = true ->
   ncdims ds n = ROk dc -> ncdims ds b = ROk db ->
   Nat.eqb (length db) (S (length dc)) && list_eqb String.eqb dc (removelast db) = false ->
-  create_bounded ds t n o = ROk (mkCons t n None, [(b, WBounds, RDims)]).
+  create_bounded ds t n o = ROk (mkCons t n None, pre ++ [(b, WBounds, RDims)]).
 Proof. exact bounds_foreign. Qed.
 Print Assumptions C13_bounds_foreign_dimensions.
+
+(* (pre = [] whenever the bounds are taken from the variable's own attribute) *)
+Theorem C13_bounds_own_attribute_no_extra : forall ds n v, own_bounds_msgs ds n v None = ROk [].
+Proof. exact own_bounds_msgs_none. Qed.
+Print Assumptions C13_bounds_own_attribute_no_extra.
+
+(* A redundant reference (fix3-1): a formula terms variable gets its bounds through the
+   formula_terms of the parametric coordinate's bounds variable (b); if it also has a bounds
+   attribute of its own naming a variable that is not in the file, nothing is left out - the
+   construct is made as b decides - and the report names the missing variable. *)
+Theorem C13_redundant_bounds_reported : forall ds t n v b own c ms,
+  get_var ds n = ROk v -> attr v "bounds" = Some own -> str_empty own = false ->
+  String.eqb own b = false -> internal ds own = false ->
+  create_bounded ds t n (Some b) = ROk (c, ms) ->
+  In (own, WBounds, RMissing) ms /\
+  (internal ds b = true -> str_empty b = false -> forall dc db, ncdims ds n = ROk dc -> ncdims ds b = ROk db ->
+     Nat.eqb (length db) (S (length dc)) && list_eqb String.eqb dc (removelast db) = true ->
+     c = mkCons t n (Some b)).
+Proof. exact redundant_bounds_reported. Qed.
+Print Assumptions C13_redundant_bounds_reported.
+
+Theorem C13_redundant_bounds_example :
+  option_map (fun f => (f_cons f, f_report f)) (field_of_name (read_skel (ds_own_bounds "ab")) "ta") =
+    Some ([mkCons CDim "z" (Some "zb"); mkCons CDomAnc "a" (Some "ab")], []) /\
+  option_map (fun f => (f_cons f, f_report f)) (field_of_name (read_skel (ds_own_bounds "nope_missing")) "ta") =
+    Some ([mkCons CDim "z" (Some "zb"); mkCons CDomAnc "a" (Some "ab")], [("nope_missing", WBounds, RMissing)]).
+Proof. exact redundant_bounds_example. Qed.
+Print Assumptions C13_redundant_bounds_example.
 
 Theorem C13_bounds_missing_example :
   exists v, get_var ds_example "lat2" = ROk v /\ bounds_name v None = Some "nope_missing" /\
